@@ -372,13 +372,22 @@ def shrink(prop, harness, cases, idx, checker):
         return None
     op = cases[idx]
 
+    info = registry.PROPS[prop]
+    mode = info.get("modes", ["run"])[0]
+
     def fails(mbytes):
-        text = "M x" + mbytes.hex() + "\n" + op + "\n"
-        rc, impl, _ = run_impl(harness, text)
-        model = run_model(text)
+        mline = "M x" + mbytes.hex()
+        text = mline + "\n" + op + "\n"
+        rc, impl, _ = run_impl(harness, text, mode)
+        if info.get("model_lines"):
+            model = run_model("\n".join(info["model_lines"](c) for c in (mline, op)) + "\n")
+        else:
+            model = run_model(text) if info.get("model", True) else ["", "", ""]
         if len(impl) < 2 or len(model) < 2:
             return False
-        return bool(checker(prop, op, impl[1], model[1], {"mapping": mbytes}))
+        ctx = {"mode": mode, "mapping": mbytes, "mapping_line": mline,
+               "stats": {"evaluations": 0, "nontrivial": set(), "ops": {}, "kinds": {}}}
+        return bool(checker(prop, op, impl[1], model[1], ctx))
 
     parts = re.split(rb'(?<=\n)', mapping)
     if len(parts) > 400 or not fails(mapping):
